@@ -442,6 +442,8 @@ def units_dispatch(cx):
         if kinds == want[u]:
             for k, st in calls:
                 fn.ctx_ob('DISPATCH', 'units %r: conversion %s' % (u, k), st)
+                if ok:
+                    cx.documented.add(id(st))
         if u == 'mef' and len(calls) == 2:
             ok = ok and calls[0][1].lineno < calls[1][1].lineno
         fn.ob('DISPATCH', 'units %r: %s' % (u, {'channel': 'values left as channel numbers', 'rfi': 'converted to RFI', 'a.u.': 'converted to RFI',
@@ -511,6 +513,7 @@ def error_rows_rendered(cx, qual, dict_param):
     tbl = fn.params[0]
     b = inventory(fn, 'UNION', [
         ('rows are visited in table order', 'for R in %s.index:' % tbl),
+        ('the statistics loop visits the rows in table order as well', 'for R in %s.index:' % tbl),
         ('an error row is recognised by its type', 'if isinstance(%s[R], %s):' % (dict_param, ROWEXC)),
         ('an error row gets an ERROR: note with the error text', "NOTES.append('ERROR: {}'.format(str(%s[R])))" % dict_param),
         ('... and no event count', 'NEV.append(np.nan)'),
@@ -646,13 +649,14 @@ def beads_pipeline(cx):
         ('stage 5: density gate on the scatter channels at the row\'s fraction',
          "DGO = FlowCal.gate.density2d(data=G, channels=SC, gate_fraction=%s['Gate Fraction'], xscale='logicle', yscale='logicle', sigma=5.0, full_output=True)" % row),
         ('stage 5: gated sample is the gate\'s output', 'G = DGO.gated_data'),
+        ('MEF values of a channel: the comma separated cell', "MEF = MS.split(',')"),
         ('MEF values parsed per channel: integers, anything else unknown',
          'MEF = [int(E) if E.strip().isdigit() else np.nan for E in MEF]'),
         ('stage 6: calibration from the gated beads with the row\'s values, channels and clustering channels',
          "MO = FlowCal.mef.get_transform_fxn(G, MV, mef_channels=MC, clustering_channels=CC, verbose=False, plot=plot, plot_filename=%s, plot_dir=os.path.join(base_dir, plot_dir) if plot_dir is not None else None, full_output=full_output, **get_transform_fxn_kwargs)" % rid),
         ('the gated beads are the row\'s result', '%s[%s] = G' % (RD, rid)),
     ]
-    b = inventory(fn, 'PIPE', items, ['IR', 'SC', 'FL', 'X', 'Y', 'FN', 'S', 'G', 'CC', 'DGO', 'MEF', 'E', 'MO', 'MV', 'MC'], root=lp)
+    b = inventory(fn, 'PIPE', items, ['IR', 'SC', 'FL', 'X', 'Y', 'FN', 'S', 'G', 'CC', 'DGO', 'MEF', 'E', 'MO', 'MV', 'MC', 'MS'], root=lp)
     return fn
 
 
@@ -785,7 +789,14 @@ def read_write(cx):
         ('duplicated identifiers are detected', 'if T.index.has_duplicates:'),
         ('the table read is what is returned', 'return T'),
         ('pandas reads the requested sheet with the requested index column', "KW = {'io': MEM, 'sheet_name': sheetname, 'index_col': index_col}"),
-    ], ['T', 'KW', 'MEM'])
+        ('the file is read into memory first', 'MEM = six.BytesIO(F.read())'),
+        ('read with the first engine (openpyxl)', 'T = pd.read_excel(**KW)'),
+        ('read again with xlrd when pandas does not know openpyxl', 'T = pd.read_excel(**KW)'),
+        ('read again with xlrd when openpyxl cannot be imported', 'T = pd.read_excel(**KW)'),
+        ('read again with xlrd when openpyxl refuses the file type', 'T = pd.read_excel(**KW)'),
+        ('read again with xlrd when the file is not a zip archive', 'T = pd.read_excel(**KW)'),
+        ('read with the engine the caller asked for', 'T = pd.read_excel(**KW)'),
+    ], ['T', 'KW', 'MEM', 'F'])
     m = rb['__matched__']
     drop, dup, cond = m.get('rows without an identifier are dropped'), m.get('duplicated identifiers are detected'), m.get('... when an index column is used')
     if drop is not None and cond is not None:
